@@ -24,6 +24,27 @@ CHECKS = {
         "Trusted: Lean kernel; harness (CPU timer 20 ms = non-termination, re-checked at 1.5 s); footprint predicates tools/footprints_c02.py (each reconstructs the expected wrong output and compares for equality). "
         "Findings on the pinned tree: F-THORN, F-X05, F-MARKER-RAW, F-CHARREF-MARKER, F-FENCE-TRAILWS, F-SETEXT-TRAILWS, F-BS, F-LRD-TRAIL, F-BQLIST-OUTDENT, F-SUBLIST-MARKER, F-BQTAB-BLANK, "
         "F-PRAGMA-TAB, F-PRAGMA-FINALNL, F-RT-DEEPNEST-1. Documents that do not tokenize are C01's (skipped, counted)."),
+ "C03": dict(
+   technique="Lean 4 proofs about an independent reference model of CommonMark (LeanMark, written from the specification) + refinement check "
+             "abs(pymarkdown tokens) = reference events and normalised HTML equality on explicitly enumerated document spaces + pinned entity table",
+   design_ref="DESIGN.md §6 C03, §5.4",
+   text="Theorems over Verif.Model.LeanMark for ALL documents and all four readings of the two points where the specification's prose and its appendix differ: L_total, "
+        "L_balanced / L_wellFormed (every block stream well nested and class-correct), L_inline_wellNested, L_escape, L_attr_safe (+ _alt, _alt_run: every attribute value the "
+        "renderer writes — href, src, title, class from the info string, start, and the piecewise alt — is free of raw <, >, \"), tight_loose_spec (+ _lookup, _events, _plain, "
+        "looseSpec_plain_iff, tree_classes: the renderer's single-pass tight/loose table equals the §5.3 definition computed by structural recursion on the block tree, for every "
+        "forest and for the stream of every document; without link reference definitions it is the sentence of §5.3 verbatim), html_deterministic_in_events. "
+        "Tie: for every in-scope document of the spaces (corpus of the repo's own parser/rule test documents + hand-made exemplars, all one-line PREFIX x BODY documents, all 20 736 "
+        "two-line core documents, a fixed hash-selected slice of 30 000 of the 396 900 two-line and 30 000 of the 216 000 three-line documents, all 196 296 inline strings of at most 4 atoms; "
+        "thorough about 282 000 documents, quick a seeded sample of the same spaces + the whole corpus) pymarkdown's token stream maps to the reference's event stream (kinds, heading level, "
+        "list type / marker / start, fence info word, inline nesting) and TransformToGfm's HTML equals the reference's up to white space between block tags, extensions off. "
+        "A document on which the two readings of the specification differ is accepted under either reading (completely: events and HTML of the same reading). "
+        "pymarkdown's entities.json is compared with a reviewed copy of the WHATWG table.",
+   note="Partial: the proofs are about the reference, not about pymarkdown; the universal claim for pymarkdown's container / inline glue rests on the explored spaces (no theorem about that code), "
+        "and LeanMark is 'the compliant parser' by construction from the spec text and by validation (99.2 % of the repo's 4 360 expected-HTML pairs; the rest are the listed deviations), not by a "
+        "proof against the spec's prose. Recogniser-level theorems (f_spec of DESIGN §5.3) are not built. Link destinations/titles, text and code content are compared through the HTML only; label type "
+        "(inline/full/collapsed/shortcut) is not compared. Documents pymarkdown cannot tokenize / render (about 1 % of the nested spaces) are C01's subject and skipped. "
+        "The pinned tree fails on about 1.6 % of the explored documents: 17 defect families (known_findings.json, F-C03-*, F-INFO, F-ALTRAW), each justified against the spec wording, "
+        "4 402 exact inputs + signatures in findings/C03.inputs.json; an unlisted failing input or a listed one failing differently is a VIOLATION."),
  "C04": dict(
    technique="Lean 4 proof of a sound-and-complete stream monitor + the compiled monitor run on pymarkdown's real, un-abstracted token streams + independent direct oracle + plug-in stream comparison",
    design_ref="DESIGN.md §6 C04",
@@ -41,6 +62,24 @@ CHECKS = {
         "tokenize or hang are C01's subject (skipped, counted; note that pymarkdown's inline pass asserts part of the discipline itself, so some nesting bugs surface as tokenization failures). "
         "li is checked to stand directly inside A list, not that it is the right one. Trusted: Lean kernel; the serialiser in tools/props/c04.py (li mapped to a point token in the driver). "
         "Finding: F-BLANK-IN-HTML (BLANK leaf token nested inside html-block)."),
+ "C05": dict(
+   technique="Lean 4 proofs about the reference model's positions (range, monotonicity, column bound, opening character of every block kind) + position refinement check through abs "
+             "+ direct opener oracle on pymarkdown's tokens, on enumerated document spaces incl. container-wrapped, multi-line-inline and pragma-shifted documents",
+   design_ref="DESIGN.md §6 C05, §5.4",
+   text="Theorems over Verif.Model.LeanMark for ALL documents and readings: L_pos_range (1 <= line <= n, column >= 1, end lines and payload lines in range), L_lines_mono, L_col_bound "
+        "(1 <= column <= length of the tab-expanded line), L_opener (the character of the tab-expanded line at the reported position is the element's opening character: > quote, bullet / first "
+        "digit of list and item, # ATX, first text character of paragraph and setext heading, -_* thematic break, ` ~ fence, [ link reference definition, indented code after its 4 columns, "
+        "HTML block < after <= 3 columns). Tie: on every document whose structure agrees with the reference (C03's comparison) the (line, column) of every abstract event of pymarkdown equals the "
+        "reference's (about 770 000 positions, thorough); documents with pragma lines are compared with the reference on the document without them, lines shifted. Oracle independent of LeanMark: "
+        "posOK(source, token) for every positioned token pymarkdown emits (about 850 000, thorough): line exists, column in the tab-expanded line, opener of the token kind at that position "
+        "(setext: underline + original position = first text character), block tokens in non-decreasing line order. The same table is applied to the reference's own block and inline events on every "
+        "explored document (0 failures). Spaces: C03's + every corpus document wrapped once in `> `, `- `, `1. ` + 3 048 multi-line inline element documents in 6 container contexts + "
+        "20 000 corpus documents with a pragma line inserted (between blocks / inside a leaf block).",
+   note="Partial: no theorem about pymarkdown's position arithmetic, and no inline L_opener theorem (inline openers of the reference are checked dynamically only). The comparison with the reference is made "
+        "only where the structure agrees; elsewhere only the direct oracle applies, and it cannot see a position that points at another element's identical opener (that is how F-BQNESTCOL is only found "
+        "by the comparison). Text tokens and soft breaks are not checked. html-block: the column where the block's own <= 3 columns of indentation start is accepted (pymarkdown's convention). "
+        "Findings on the pinned tree: F-LISTCOL, F-BQNESTCOL, F-TABPOS (footprint predicates, about 9 800 tokens in the thorough sweep), and 733 exact inputs in findings/C05.inputs.json "
+        "(F-C05-INLINECOL after multi-line inline elements, F-C05-BLOCKPOS, F-C05-HTMLCOL incl. a negative column, F-C05-LISTPOS, F-C05-PRAGMA-INSIDE, F-C05-PRAGMA)."),
  "C07": dict(
    technique="Lean 4 proof over a faithful rule-engine model + engine correspondence through probe plug-ins + direct oracle sweep",
    design_ref="DESIGN.md §6 C07",
